@@ -1,6 +1,6 @@
 //! Engine B part of C08: the same histories against the real binary; the server's text is read
 //! back with the guarded `$/verif/text` request after every notification.
-use super::c08::{decode, Case};
+use super::c08::{decode, Case, Note};
 use super::c18::WATCHDOG_MS;
 use crate::driver::*;
 use crate::session::{self, RunOpts};
@@ -18,6 +18,18 @@ fn plan(case: &Case) -> (Vec<Value>, Vec<(i64, String)>) {
     let mut id = 1;
     let mut expect = Vec::new();
     for note in &case.notes {
+        let note = match note {
+            Note::Changes(n) => n,
+            Note::Reopen(t) => {
+                msgs.push(session::notification("textDocument/didClose", json!({ "textDocument": { "uri": uri } })));
+                msgs.push(session::notification("textDocument/didOpen", json!({ "textDocument": { "uri": uri, "languageId": "spl", "version": 1, "text": t } })));
+                client = t.clone();
+                id += 1;
+                msgs.push(session::request(id, "$/verif/text", json!({ "uri": uri })));
+                expect.push((id, client.clone()));
+                continue;
+            }
+        };
         let cc: Vec<Value> = note
             .iter()
             .map(|c| match c.range {
